@@ -160,3 +160,32 @@ theorem hartreeFockIndex_closed (ne n : Nat) (h : ne ≤ n) : hartreeFockIndex n
     omega
 
 end OFV.C10
+
+namespace OFV.C10
+open OFV.Model.C10 OFV.Spec OFV.Spec.C10
+
+/-- counting a predicate over `0 … n-1` or over the reversed positions gives the same number -/
+theorem count_reverse (n : Nat) (p : Nat → Bool) :
+    ((List.range n).filter fun j => p (n - 1 - j)).length = ((List.range n).filter p).length := by
+  have hrev : (List.range n).reverse = (List.range n).map fun j => n - 1 - j := by
+    have h0 : (List.range n).reverse = (List.range' 0 n).reverse := by rw [List.range_eq_range']
+    rw [h0, List.reverse_range']
+    apply List.map_congr_left
+    intro j _; omega
+  have h1 : ((List.range n).filter p).length = ((List.range n).reverse.filter p).length := by
+    rw [List.filter_reverse, List.length_reverse]
+  rw [h1, hrev, List.filter_map, List.length_map]
+  rfl
+
+/-- the particle number is the same read from the big-endian matrix index or from its mask -/
+theorem popcount_maskOfIndex (n idx : Nat) : countBelow (maskOfIndex n idx) n = countBelow idx n := by
+  unfold countBelow
+  have : (List.range n).filter (fun j => (maskOfIndex n idx).testBit j)
+      = (List.range n).filter (fun j => idx.testBit (n - 1 - j)) := by
+    apply List.filter_congr
+    intro j hj
+    rw [maskOfIndex_testBit]
+    simp [List.mem_range.mp hj]
+  rw [this, count_reverse n (fun k => idx.testBit k)]
+
+end OFV.C10
